@@ -394,6 +394,39 @@ def tmplRun {R : Type} (s : Tmpl R) : List (Name × Name × R) → Option (Tmpl 
   | [] => some s
   | (p, st, r) :: rest => (tmplWrite s p st r).bind (fun s1 => tmplRun s1 rest)
 
+/-! ### The template writer closed in the middle of its life
+
+`close()` closes the current stream writer and keeps both it and `current_path`; a later `write` whose template
+formats to that same path gets the closed writer back and raises before anything reaches the disk; a `write` to another
+path rotates / opens as usual and the writer is alive again. -/
+
+inductive TOp (R : Type) where
+  | write (path stamp : Name) (r : R)
+  | close
+  deriving Repr
+
+structure TmplC (R : Type) where
+  t : Tmpl R
+  closed : Bool
+  deriving Repr
+
+/-- one call: the new state and whether the call returned normally -/
+def tmplStepC {R : Type} (s : TmplC R) : TOp R → Option (TmplC R × Bool)
+  | .close => some ({ s with closed := true }, true)
+  | .write p st r =>
+    if s.closed && s.t.currentPath == some p then some (s, false)          -- the closed writer refuses; nothing changes
+    else (tmplWrite s.t p st r).map fun t' => ({ t := t', closed := false }, true)
+
+def tmplRunC {R : Type} (s : TmplC R) : List (TOp R) → Option (TmplC R × List Bool)
+  | [] => some (s, [])
+  | op :: rest => (tmplStepC s op).bind fun (s1, ok) => (tmplRunC s1 rest).map fun (s2, oks) => (s2, ok :: oks)
+
+/-- the (path, record) pairs of the calls that returned normally -/
+def acceptedWrites {R : Type} : List (TOp R) → List Bool → List (Name × R)
+  | .write p _ r :: ops, true :: oks => (p, r) :: acceptedWrites ops oks
+  | _ :: ops, _ :: oks => acceptedWrites ops oks
+  | _, _ => []
+
 /-- `PathTemplateWriter.write`, statement by statement, as the model below reads it (the regenerated
     `Gen.templateWriteBody` is compared with it in `Lemmas/Writers.lean`): the template is formatted with `name`, the
     record itself and `ts`, and `ts` is the record's own `_generated` (the clock only when the record has none) - no
